@@ -9,6 +9,15 @@ CLAIMED = {
  "C17": ("§7 C17", "Lean 4 theorems over the encoding model (LE/BE, packed BCD incl. overflow characterisation, tags, hex, CP437 table by kernel decide, receipt numbers) + exhaustive/boundary differential correspondence",
          "Proved in Lean for all values and widths: integer round trips, BCD decode∘encode = id, digits 0-9 only, MSD first, the decoder returns the unbounded digit value iff it fits the width and IncompleteData otherwise (no wrapped value), F padding, leading zeros, tag round trip and shape, hex both directions, CP437 byte round trip (256-entry table by decide +kernel), receipt number with FFFF sentinel. Model tied to encoding.rs exhaustively for u8/u16/tags/CP437 and at all boundaries for wider types.",
          "Trusted: Lean kernel (+ propext, Quot.sound, Classical.choice), hand model of encoding.rs validated against the Rust code on each run, python reference oracles."),
+ "C03": ("§7 C03", "kernel-decided equality of the table translated from the source with the frozen specification table (55 structs, 17 enums) + reference-encoded packets decoded/re-encoded by the Rust code",
+         "Lean: `Generated.shipped = Spec.shipped` (every control field; every field's position, name, tag number, length style, encoding, type) and the same for reply enums, decided in the kernel on every run against the freshly translated table, via a Boolean structural equality proved sound. Both directions on bytes: an independent python reference encoder interprets the frozen table; the Rust code must decode those bytes into exactly the named fields and re-encode them identically (all 55 types, canonical domain, APDU 253..257/65535 bodies).",
+         "Trusted: Lean kernel, the translator (cross-checked: a mistranslation makes model and Rust disagree), the frozen specification table (hand-reviewed, see DESIGN 5.4), the python reference encoder, Debug-output parser. The generic theorem `impl encode = reference encode` is not yet proved in Lean (C01 work in progress); the byte-level agreement is differential."),
+ "C14": ("§7 C14", "Lean 4 theorems: suffix-independence of every delimiting length style, of the generic tag/length/data triple, of every command decoder and nested container, for arbitrary (not only canonical) inputs + differential correspondence with suffixes",
+         "Proved for all inputs, all schemas: if a packet (APDU) or a field under fixed/LLVAR/LLLVAR/BER-TLV length decodes, then with any bytes appended it decodes to the same value and the remainder is the old remainder followed by exactly those bytes (`cmd_suffix`, `field_suffix`, `deserTagged_append`, `lenDe_append`). Correspondence: canonical packets of all command types x suffixes (all 256 single bytes, valid packets, random) and junk spliced into the body behind the last container.",
+         "Trusted: Lean kernel, hand model of lib.rs/length.rs/derive validated by differential execution, harness."),
+ "C15": ("§7 C15", "Lean 4 theorems about the reply-dispatch loop (soundness, completeness w.r.t. the variant's own decoder, rejection outside the reply set, short input) for every enum and every control field + kernel-decided distinctness of shipped control fields + exhaustive 65,536-pair correspondence",
+         "Proved for every enum definition and all inputs: a returned variant has exactly the input's control field and the content its own packet decoder yields; the first matching variant decides value or error; a control field outside the reply set is an error whatever the body; < 2 bytes is IncompleteData. `decide` shows no shipped variant is shadowed. Correspondence: all 17 enums x all 65,536 (class, instr) pairs, valid/foreign/random/long/inconsistently framed bodies, compared with the variant type's own zvt_deserialize.",
+         "Trusted: Lean kernel, translator (enum tables regenerated each run), hand model of the zvt_enum macro validated exhaustively, harness."),
  "C16": ("§7 C16", "Lean 4 theorems over the length-prefix model (round trip with arbitrary trailer, shortest form, truncation, injectivity, parser totality) + exhaustive differential correspondence model/Rust",
          "Proved in Lean for every length of every style (no bound): ser/de round trip with arbitrary trailing data, shortest form with the 128/256 and 255 switch points, truncated prefix => IncompleteData, injectivity, no parser panic. The model is tied to length.rs by running both on every representable length and every 0..2-byte (thorough: 3-byte) string.",
          "Trusted: Lean kernel (+ propext, Quot.sound, Classical.choice), the hand model of length.rs validated exhaustively against the Rust code on each run, harness/driver/line protocol."),
